@@ -1428,6 +1428,7 @@ void C2sStreamManager::onEnabled(const SmEnabled &enabled)
     // Called whenever stream management is enabled, either by requestEnable() or by onBind2Bound()
     q->debug(u"Stream management enabled"_s);
     m_smId = enabled.id;
+    m_boundJid = q->configuration().jid();
     m_canResume = enabled.resume;
     if (enabled.resume && !enabled.location.isEmpty()) {
         setResumeAddress(enabled.location);
@@ -1445,6 +1446,11 @@ void C2sStreamManager::onEnableFailed(const SmFailed &)
 void C2sStreamManager::onResumed(const SmResumed &resumed)
 {
     q->debug(u"Stream resumed"_s);
+    // The resumed session keeps the address that was bound for it, which may differ from the
+    // configured one (e.g. server-assigned resource) the application reconnected with.
+    if (!m_boundJid.isEmpty()) {
+        q->configuration().setJid(m_boundJid);
+    }
     q->streamAckManager().setAcknowledgedSequenceNumber(resumed.h);
     m_streamResumed = true;
     m_enabled = true;
